@@ -131,8 +131,19 @@ def gen_history(r, length, m, kind):
             d = r.choice([-1.0, 1.0, -0.5, 0.5])
             seq.append([x + d for x in b[:-1]] + [b[-1]])
             continue
+        if kind in ("pareto", "shared_pareto") and seq and m >= 2 and r.random() < 0.08:
+            # a trade-off in the last digits: distinct, mutually non-dominated, nearly equal
+            b = r.choice(seq)
+            i_, j_ = r.sample(range(m), 2)
+            d_ = max(abs(b[i_]), abs(b[j_]), 1.0) * r.choice([1e-12, 1e-10, 4e-16])
+            v = list(b[:-1])
+            v[i_] += d_
+            v[j_] -= d_
+            if v[i_] != b[i_] and v[j_] != b[j_]:
+                seq.append(v + [b[-1]])
+                continue
         c = gen.cost_vector(r, m, "grid" if style == "chains" else style)
-        seq.append(c + [gen.marker_value(r, 0.25)])
+        seq.append(c + [gen.marker_value(r, 0.25, signed=False)])
     return seq
 
 
